@@ -322,6 +322,8 @@ def model_value(model, v):
             return True
         if z3.is_false(e):
             return False
+        if z3.is_bv_value(e):
+            return hex(e.as_long())
         if z3.is_fp(e):
             return fp_to_py(e)
         if z3.is_seq(e):
